@@ -102,7 +102,7 @@ TUse == /\ Ev("vuse") /\ phase = "scan"
                 /\ Rec[l].res = "ok" /\ IdOfLine(Rec[l].decl) = FOf(body, Rec[l].line - cur.off)
                 /\ UNCHANGED <<seen, alg, k>>
            ELSE LET p == Rec[l].line - cur.off IN
-                /\ p \in 1..Len(body) /\ IsU(body, p) /\ (100 + p) \notin seen
+                /\ p \in 1..Len(body) /\ IsU(body, p) /\ (100000 + p) \notin seen
                 /\ body[p].n = Rec[l].name
                 /\ (Rec[l].res = "undefined") = (p \in MR402(body, cfg))                   \* R
                 /\ (Rec[l].res # "undefined" /\ MNoDup(body, cfg)) =>
@@ -112,7 +112,7 @@ TUse == /\ Ev("vuse") /\ phase = "scan"
                        /\ (p \in MR482first(body, cfg)) => Rec[l].res = "skipped"
                 /\ Lock({"use"}, p, LAMBDA a, b :
                            (Rec[l].res = "skipped") = (p \in b.e482 /\ p \notin a.e482))
-                /\ seen' = seen \cup {100 + p}
+                /\ seen' = seen \cup {100000 + p}
         /\ Common
 
 TGoto == /\ Ev("vgoto") /\ phase = "scan"
@@ -137,7 +137,7 @@ TOutcome ==
     /\ Strict => Skip(alg, k).k > Len(sched)
     \* every declaration and every use was visited exactly once
     /\ seen = { d \in 1..Len(body) : IsV(body, d) \/ IsF(body, d) } \cup {0} \cup ParamIds(cfg) \cup ConstIds(cfg)
-                \cup { 100 + u : u \in { v \in 1..Len(body) : IsU(body, v) } }
+                \cup { 100000 + u : u \in { v \in 1..Len(body) : IsU(body, v) } }
     /\ DiagPos(402) = MR402(body, cfg)
     /\ DiagPos(422) = MR422(body, cfg)
     /\ { IdOfLine(line) : line \in DiagLines(424) } = { ParamId(i) : i \in R424(cfg) }
